@@ -22,7 +22,7 @@ RULE = (
     "one decision. distinct = (implementation, m, k, NIS case); non-trivial = the case lies within 1 ulp of the boundary "
     "or flips the decision relative to its neighbour. General filters (coupled 2-3 state models, non-zero state) x priors {dense, dense "
     "with a 1-ulp asymmetry, output of a prediction} x every sensor x outliers {1e3, -1e6 in each reading; +-inf for 1-reading "
-    "sensors}: a discard returns state and covariance bit for bit."
+    "sensors}: a discard returns state and covariance bit for bit (Python filter and generated C++ filter)."
 )
 ASSUMPTIONS = [
     "decision oracle: IEEE double comparison NIS > k*sqrt(2*m)+m evaluated in Python floats (same expression as the property)",
@@ -299,5 +299,5 @@ def eval_case(case):
             "sample": {"kind": case["kind"], "m": m, "k": k, "boundary_readings": [z for _, z in zs[:3]]}}
 
 
-REQUIRED_OUTCOMES = (["keep", "discard", "cpp-helper-ran", "cpp-filter-ran", "py-multi-sensor", "py-discard-general"] + [f"{o}:helper:m{m}:k{k}" for o in ("keep", "discard") for m in MS for k in KS]
+REQUIRED_OUTCOMES = (["keep", "discard", "cpp-helper-ran", "cpp-filter-ran", "py-multi-sensor", "py-discard-general", "cpp-discard-general"] + [f"{o}:helper:m{m}:k{k}" for o in ("keep", "discard") for m in MS for k in KS]
                      + [f"{o}:cppf:m{m}:k5.0" for o in ("keep", "discard") for m in MS] + [f"keep:cppf:m{m}:kNone" for m in MS] + [f"keep:cppf:m{m}:k0.0" for m in MS] + [f"discard:m{m}:k{k}" for m in MS for k in KS] + [f"keep:m{m}:k{k}" for m in MS for k in KS + [None]])
